@@ -96,6 +96,10 @@ def run(cx):
     # are circular ids
     from props.idarith import id_arith_discipline
     id_arith_discipline(cx, "C12.k")
+    from props.C11 import ack_frame_applies_both
+    ack_frame_applies_both(cx, "C12.l")
+    from props.C15 import group_width
+    group_width(cx, "C12.m")
 
 
 def drop_guard(cx, iid):
